@@ -14,12 +14,152 @@ RULE = ('Scenarios: sequences of 1-8 recording ids, a behaviour per id (equal, d
         'playback is None or belongs to that id; kept expected/actual are the extractor\'s values for that id; status '
         '= verdict of that id\'s own behaviour (EqualizerFailure for raises / exit / hang / late answer, the '
         'comparator\'s status and message otherwise, a bare status wrapped); for scripts without process faults the '
-        'in-process and the dedicated run give the same status/message lists. Non-trivial: >= 1 failing id followed by '
+        'in-process and the dedicated run give the same status/message lists. Part 2: the player is a real TapeRecorder '
+        'replaying 1-6 real recordings of one operation (two output calls around an input read) where the replayed code, '
+        'per recording, is unchanged / sends something else / asks for an input that was never recorded before or after '
+        'its first output call / raises as recorded / has a failing playback function; in-process and dedicated with '
+        'recycle rate 1-6; expected Equal / Different / EqualizerFailure per recording. Non-trivial: >= 1 failing id followed by '
         '>= 1 later id. Distinct = distinct scenario.')
 ASSUMPTIONS = ['playback objects are small picklable harness objects whose original_recording.id is the id they were '
                'produced for', 'late answer: the harness wraps os.kill in the parent so that the worker answers between '
                'the parent\'s "timed out" decision and the delivery of SIGKILL (a legitimate OS schedule made '
                'deterministic)']
+
+# ---- part 2: the player is a real TapeRecorder replaying real recordings (as the studio wires it)
+
+import sys   # noqa: E402
+import types  # noqa: E402
+
+_mod = types.ModuleType('pbt.c08_classes')
+sys.modules['pbt.c08_classes'] = _mod
+REAL_KINDS = ('ok', 'ok', 'changed', 'missing_after_output', 'missing_first', 'op_raises', 'playback_fn_raises')
+REAL_WANT = {'ok': 'Equal', 'op_raises': 'Equal', 'changed': 'Different', 'missing_after_output': 'EqualizerFailure',
+             'missing_first': 'EqualizerFailure', 'playback_fn_raises': 'EqualizerFailure'}
+
+
+def real_player_case(ctx, case):
+    """case = {kinds: [kind per recording], recycle, keep}. Every recording is one run of the same operation (two
+    output calls around an input read); what the replayed code does for it is scripted per recording id."""
+    import logging
+    from playback.tape_recorder import TapeRecorder
+    from playback.tape_cassettes.in_memory.in_memory_tape_cassette import InMemoryTapeCassette
+    from playback.studio.equalizer import Equalizer, CompareExecutionConfig, EqualityStatus
+    from playback.exceptions import TapeRecorderException
+    rec = TapeRecorder(InMemoryTapeCassette())
+    rec.enable_recording()
+    mode = {}
+
+    class RealOp(object):
+        def __init__(self, n=None):
+            self.n = n
+
+        @rec.intercept_input('c08.load')
+        def load(self, what):
+            return [what, self.n]
+
+        @rec.intercept_output('c08.notify')
+        def notify(self, msg):
+            return 'ack'
+
+        @rec.operation()
+        def execute(self):
+            kind = mode.get('kind', 'ok')
+            if kind == 'missing_first':
+                self.load('never recorded')
+            self.notify('start')
+            got = self.load('resource' if kind != 'missing_after_output' else 'moved resource')
+            self.notify(['done', got] if kind != 'changed' else ['done differently', got])
+            if mode.get('raises'):
+                raise ValueError('operation fails')
+            return got
+
+    RealOp.__qualname__ = 'RealOp'
+    RealOp.__module__ = 'pbt.c08_classes'
+    _mod.RealOp = RealOp
+    ids, script = [], {}
+    for n, kind in enumerate(case['kinds']):
+        mode.clear()
+        mode['raises'] = kind == 'op_raises'
+        before = set(rec.tape_cassette.get_all_recording_ids())
+        try:
+            RealOp(n).execute()
+        except ValueError:
+            pass
+        new = set(rec.tape_cassette.get_all_recording_ids()) - before
+        if len(new) != 1:
+            raise Violation('recording run %d created %r' % (n, new), 'setup')
+        ids.append(new.pop())
+        script[ids[-1]] = kind
+    rec.disable_recording()
+
+    def player(rid):
+        kind = script[rid]
+        mode.clear()
+        mode['kind'] = kind
+        mode['raises'] = kind == 'op_raises'
+
+        def playback_function(recording):
+            if kind == 'playback_fn_raises':
+                RealOp().notify('start')
+                raise RuntimeError('playback function fails')
+            return RealOp().execute()
+        return rec.play(rid, playback_function)
+
+    def plain(v):
+        # exceptions keep only their type through the serializer
+        if isinstance(v, BaseException):
+            return 'exception ' + type(v).__name__
+        if isinstance(v, dict):
+            return sorted((k, plain(x)) for k, x in v.items())
+        if isinstance(v, (list, tuple)):
+            return [plain(x) for x in v]
+        return repr(v)
+
+    def extractor(outputs):
+        return sorted((o.key, plain(o.value)) for o in outputs)
+
+    def comparator(a, b):
+        return EqualityStatus.Equal if a == b else EqualityStatus.Different
+
+    old_disable = logging.root.manager.disable
+    logging.disable(logging.CRITICAL)
+    lists = {}
+    try:
+        for dedicated in (False, True):
+            cfg = CompareExecutionConfig(keep_results_in_comparison=case.get('keep', False),
+                                         compare_in_dedicated_process=dedicated,
+                                         compare_process_recycle_rate=case['recycle'], compare_process_timeout=20)
+            comps = list(Equalizer(list(ids), player, extractor, comparator,
+                                   compare_execution_config=cfg).run_comparison())
+            got_ids = [c.recording_id for c in comps]
+            if got_ids != ids:
+                raise Violation('comparisons are labelled %r, input ids were %r' % (got_ids, ids), 'one-per-id-in-order')
+            verdicts = [c.comparator_status.equality_status.name for c in comps]
+            want = [REAL_WANT[script[i]] for i in ids]
+            if verdicts != want:
+                bad = [n for n, (v, w) in enumerate(zip(verdicts, want)) if v != w][0]
+                raise Violation('real recorder as player, %s: recording #%d (%s) got %s (%s), expected %s; kinds %r, '
+                                'verdicts %r' % ('dedicated process, recycle rate %d' % case['recycle'] if dedicated
+                                                 else 'in-process', bad, case['kinds'][bad], verdicts[bad],
+                                                 comps[bad].comparator_status.message, want[bad], case['kinds'],
+                                                 verdicts), 'verdict')
+            for c in comps:
+                if c.playback is not None and c.playback.original_recording.id != c.recording_id:
+                    raise Violation('comparison of %s carries the replay of %s' % (
+                        c.recording_id, c.playback.original_recording.id), 'attribution')
+            lists[dedicated] = verdicts
+    finally:
+        logging.disable(old_disable)
+        import multiprocessing as mp
+        for ch in mp.active_children():
+            ch.join(5)
+    failing = [k for k in case['kinds'][:-1] if REAL_WANT[k] == 'EqualizerFailure']
+    ctx.case({'real_player': case}, bool(failing), classes=('real-player',) + tuple(set('real:' + k for k in case['kinds'])))
+
+
+real_cases = st.fixed_dictionaries({'kinds': st.lists(st.sampled_from(REAL_KINDS), min_size=1, max_size=6),
+                                    'recycle': st.integers(1, 6), 'keep': st.booleans()})
+
 
 FAILING = ('player_raises', 'extractor_raises', 'comparator_raises', 'bad_answer') + PF.PROCESS_FAULTS
 
@@ -125,6 +265,9 @@ FIXED = [
 
 
 def replay(ctx, case):
+    if 'real_player' in case:
+        real_player_case(ctx, case['real_player'])
+        return
     obs = PF.run_scenario(case)
     check(case, obs)
 
@@ -135,4 +278,7 @@ def run(ctx):
             guarded(ctx, sc, lambda c: run_one(ctx, c))
     if not ctx.violations:
         hyp_search(ctx, scenarios(), lambda c: run_one(ctx, c), ctx.pick(14, 180), label='scenarios',
+                   shrink=not ctx.quick)
+    if not ctx.violations:
+        hyp_search(ctx, real_cases, lambda c: real_player_case(ctx, c), ctx.pick(6, 80), label='real-player',
                    shrink=not ctx.quick)
